@@ -22,6 +22,8 @@ def worker(chk, pkg, index):
                      {"namespace": pkg.namespace, "errors": {k: v[:2000] for k, v in pr.cpp_errors.items()}})
             return
         eng = rtengine.Engine(chk, pr, k, max_exec=12 if tier == "quick" else 40, cap=60 if tier == "quick" else 400)
+        if pkg.namespace.startswith("Tg"):
+            eng.key_prefix = "same-types-different-tags/"
         eng.run(paths_binary=[], paths_json=[[("cpp", "b2n", 1), ("cpp", "n2b", 1)], [("cpp", "b2n", 3), ("cpp", "n2n", 1), ("cpp", "n2b", 3)]])
         if pkg.namespace.startswith("Pat"):
             pats = [p.name[1:].upper() for p in pkg.protocols]
@@ -38,6 +40,11 @@ def main(tier):
     sh = [s for s in shapes.shapes(d, tier) if not shapes.has_vector_of_bool(s)]
     packed = shapes.pack(sh, "Pk")
     packed.append((shapes.pattern_package(4 if tier == "quick" else 5)[0], []))
+    # two unions over the same case types with different tags (the JSON mapping names the tag), in both definition orders
+    from am import P, Union
+    u_custom, u_default = Union(("i", P("int32")), ("f", P("float32"))), shapes.mk_union([P("int32"), P("float32")])
+    u_custom3, u_default3 = Union(None, ("a", P("string")), ("b", P("date"))), shapes.mk_union([P("string"), P("date")], null=True)
+    packed += shapes.pack([u_custom, u_default, u_custom3, u_default3], "Tga") + shapes.pack([u_default, u_custom, u_default3, u_custom3], "Tgb")
     chk.extra.update({"shapes": len(sh), "depth": d, "k": 1 if tier == "quick" else 2})
     roundtrip.run_packages(chk, packed, worker)
     chk.assumptions += ["arrays use the stand-in verif_ndarray.h (cpp.overrideArrayHeader); date text in C++ comes from the date.h stand-in: only its JSON kind (string) and round-trip identity are checked",
